@@ -1394,6 +1394,17 @@ func TestVerifC09_SmallExhaustive(t *testing.T) {
 				}
 			}
 		}
+		// every injected fault once per protocol: the accessor and the memory must be released on
+		// each early-exit path of the handler
+		for kind := 0; kind < c09Kinds; kind++ {
+			f := c09Fields{height: h, ns: sq.Shares[0].Namespace().Bytes(), to: 1}
+			if kind == c09ND {
+				f.ns = c09NSCandidates(sq)[0].Bytes()
+			}
+			for _, fault := range []string{"service", "reserve", "size", "lookup"} {
+				w.run(t, &c09Req{class: "fault", kind: kind, f: f, how: "fault", via: "client", fault: fault})
+			}
+		}
 		vk.Count("exhaustive_squares", 1)
 	})
 }
